@@ -4,425 +4,8 @@ use vstd::prelude::*;
 use std::mem::swap;
 use std::ops::{Div, Rem};
 verus! {
-global size_of usize == 8;
-
-#[derive(Debug)]
-pub struct VErr {}
-#[verifier::external_body]
-pub fn verr() -> VErr { VErr{} }
-pub fn vassert(c: bool) requires c {}
-#[verifier::external_body]
-pub fn vpanic<A>() -> A requires false { unimplemented!() }
-
-pub open spec fn spec_min(a: int, b: int) -> int { if a <= b { a } else { b } }
-pub open spec fn spec_max(a: int, b: int) -> int { if a >= b { a } else { b } }
-pub open spec fn pow2(l: nat) -> nat decreases l { if l == 0 { 1 } else { 2 * pow2((l - 1) as nat) } }
-pub proof fn lemma_pow2_mono(a: nat, b: nat) requires a <= b ensures pow2(a) <= pow2(b) decreases b
-{ if a < b { lemma_pow2_mono(a, (b - 1) as nat); } }
-pub proof fn lemma_pow2_bound(l: nat) requires l <= 31 ensures 1 <= pow2(l) <= 0x8000_0000
-{ lemma_pow2_mono(0, l); lemma_pow2_mono(l, 31); assert(pow2(31) == 0x8000_0000) by (compute); assert(pow2(0) == 1) by (compute); }
-pub proof fn lemma_pow2_bound63(l: nat) requires l <= 63 ensures 1 <= pow2(l) <= 0x8000_0000_0000_0000
-{ lemma_pow2_mono(0, l); lemma_pow2_mono(l, 63); assert(pow2(63) == 0x8000_0000_0000_0000) by (compute); assert(pow2(0) == 1) by (compute); }
-// trusted: std integer power (2^e for the exponents the code uses)
-pub assume_specification [u32::pow] (b: u32, e: u32) -> (r: u32)
-   requires b == 2, e <= 31
-   ensures r as nat == pow2(e as nat);
-pub assume_specification [u64::pow] (b: u64, e: u32) -> (r: u64)
-   requires b == 2, e <= 63
-   ensures r as nat == pow2(e as nat);
-
-//@extract struct file="versatiles_core/src/types/tile_coords.rs" name="TileCoord2"
-//@end
-#[derive(Clone, Copy)]
-//@extract struct file="versatiles_core/src/types/tile_coords.rs" name="TileCoord3"
-//@end
-//@extract struct file="versatiles_core/src/types/tile_bbox.rs" name="TileBBox"
-//@end
-// trusted: #[derive(Clone)] is field-wise
-impl Clone for TileBBox { fn clone(&self) -> (r: Self) ensures r == *self { TileBBox { level: self.level, x_min: self.x_min, y_min: self.y_min, x_max: self.x_max, y_max: self.y_max, max: self.max } } }
-
-impl TileCoord2 {
-//@extract fn file="versatiles_core/src/types/tile_coords.rs" scope="impl TileCoord2" name="new"
-//@ret r
-//@spec
-		ensures r.x == x, r.y == y
-//@end
-}
-
-impl TileCoord3 {
-	pub open spec fn valid(&self) -> bool { self.z <= 31 && self.x < pow2(self.z as nat) && self.y < pow2(self.z as nat) }
-	pub open spec fn flipped(&self) -> TileCoord3 { TileCoord3 { x: self.x, y: (pow2(self.z as nat) - 1 - self.y) as u32, z: self.z } }
-	pub open spec fn swapped(&self) -> TileCoord3 { TileCoord3 { x: self.y, y: self.x, z: self.z } }
-
-//@extract fn file="versatiles_core/src/types/tile_coords.rs" scope="impl TileCoord3" name="new"
-//@ret r
-//@spec
-		ensures r is Ok <==> z <= 31, r is Ok ==> r.unwrap() == (TileCoord3 { x, y, z })
-//@end
-//@extract fn file="versatiles_core/src/types/tile_coords.rs" scope="impl TileCoord3" name="as_coord2"
-//@ret r
-//@spec
-		ensures r.x == self.x, r.y == self.y
-//@end
-//@extract fn file="versatiles_core/src/types/tile_coords.rs" scope="impl TileCoord3" name="is_valid"
-//@ret r
-//@spec
-		ensures r == (self.z <= 30 && self.x < pow2(self.z as nat) && self.y < pow2(self.z as nat))
-//@at "let max ="
-		proof { lemma_pow2_bound(self.z as nat); }
-//@end
-//@extract fn file="versatiles_core/src/types/tile_coords.rs" scope="impl TileCoord3" name="get_sort_index"
-//@ret r
-//@spec
-		requires self.z <= 31, self.x < pow2(self.z as nat), self.y < pow2(self.z as nat)
-		ensures r as int == (pow2(self.z as nat) * pow2(self.z as nat) - 1) / 3 + pow2(self.z as nat) * self.y + self.x
-//@at "let size ="
-		proof { lemma_pow2_bound(self.z as nat); }
-//@at "let offset ="
-		proof {
-			assert(size * size <= 0x8000_0000 * 0x8000_0000) by (nonlinear_arith) requires 1 <= size <= 0x8000_0000;
-			assert(size * size >= 1) by (nonlinear_arith) requires 1 <= size;
-			assert(size * (self.y as u64) <= 0x8000_0000 * 0x8000_0000) by (nonlinear_arith)
-				requires 1 <= size <= 0x8000_0000, 0 <= self.y < 0x8000_0000; }
-//@end
-
-	// ---- TransformCoord for TileCoord3
-//@extract fn file="versatiles_core/src/utils/transform_coord.rs" scope="impl TransformCoord for TileCoord3" name="flip_y"
-//@spec
-		requires old(self).valid()
-		ensures *final(self) == old(self).flipped(), final(self).valid()
-//@at "let max_index ="
-		proof { lemma_pow2_bound(self.z as nat); }
-//@end
-//@extract fn file="versatiles_core/src/utils/transform_coord.rs" scope="impl TransformCoord for TileCoord3" name="swap_xy"
-//@spec
-		ensures *final(self) == old(self).swapped()
-//@end
-}
-
-// involutions on points
-pub proof fn lemma_coord_involutions(c: TileCoord3)
-	requires c.valid()
-	ensures c.flipped().valid(), c.flipped().flipped() == c, c.swapped().swapped() == c, c.swapped().valid()
-{ lemma_pow2_bound(c.z as nat); }
-
-impl TileBBox {
-	// ---------- abstraction: the denoted set of tiles
-	pub open spec fn has(&self, x: int, y: int) -> bool {
-		self.x_min <= x <= self.x_max && self.y_min <= y <= self.y_max
-	}
-	pub open spec fn empty(&self) -> bool { forall|x: int, y: int| !self.has(x, y) }
-	pub open spec fn wf(&self) -> bool {
-		self.level <= 31 && self.max as nat == pow2(self.level as nat) - 1
-		&& self.x_max <= self.max && self.y_max <= self.max
-	}
-	pub open spec fn w(&self) -> int { if self.x_max < self.x_min { 0 } else { self.x_max - self.x_min + 1 } }
-	pub open spec fn h(&self) -> int { if self.y_max < self.y_min { 0 } else { self.y_max - self.y_min + 1 } }
-	pub open spec fn same_frame(&self, o: &TileBBox) -> bool { self.level == o.level && self.max == o.max }
-	pub proof fn lemma_empty(&self)
-		ensures self.empty() <==> (self.x_max < self.x_min || self.y_max < self.y_min)
-	{ if !(self.x_max < self.x_min || self.y_max < self.y_min) { assert(self.has(self.x_min as int, self.y_min as int)); } }
-
-//@extract fn file="versatiles_core/src/types/tile_bbox.rs" scope="impl TileBBox" name="new"
-//@ret r
-//@spec
-		ensures
-			r is Ok <==> (level <= 31 && x_max < pow2(level as nat) && y_max < pow2(level as nat) && x_min <= x_max && y_min <= y_max),
-			r is Ok ==> r.unwrap().wf() && r.unwrap().level == level && !r.unwrap().empty()
-				&& forall|x: int, y: int| r.unwrap().has(x, y) <==> (x_min <= x <= x_max && y_min <= y <= y_max),
-//@at "let max ="
-		proof { lemma_pow2_bound(level as nat); }
-//@at "Ok(bbox)"
-		proof { assert(bbox.has(x_min as int, y_min as int)); }
-//@end
-//@extract fn file="versatiles_core/src/types/tile_bbox.rs" scope="impl TileBBox" name="new_full"
-//@ret r
-//@spec
-		ensures r is Ok <==> level <= 31,
-			r is Ok ==> r.unwrap().wf() && r.unwrap().level == level
-				&& forall|x: int, y: int| r.unwrap().has(x, y) <==> (0 <= x < pow2(level as nat) && 0 <= y < pow2(level as nat)),
-//@at "let max ="
-		proof { lemma_pow2_bound(level as nat); }
-//@end
-//@extract fn file="versatiles_core/src/types/tile_bbox.rs" scope="impl TileBBox" name="new_empty"
-//@ret r
-//@spec
-		ensures r is Ok <==> level <= 31, r is Ok ==> r.unwrap().wf() && r.unwrap().level == level && r.unwrap().empty()
-//@at "let max ="
-		proof { lemma_pow2_bound(level as nat); }
-//@end
-//@extract fn file="versatiles_core/src/types/tile_bbox.rs" scope="impl TileBBox" name="is_empty"
-//@ret r
-//@spec
-		ensures r == self.empty()
-//@at "(self.x_max < self.x_min)"
-		proof { self.lemma_empty(); }
-//@end
-//@extract fn file="versatiles_core/src/types/tile_bbox.rs" scope="impl TileBBox" name="width"
-//@ret r
-//@spec
-		requires self.wf()
-		ensures r == self.w()
-//@at "if self.x_max"
-		proof { lemma_pow2_bound(self.level as nat); }
-//@end
-//@extract fn file="versatiles_core/src/types/tile_bbox.rs" scope="impl TileBBox" name="height"
-//@ret r
-//@spec
-		requires self.wf()
-		ensures r == self.h()
-//@at "if self.y_max"
-		proof { lemma_pow2_bound(self.level as nat); }
-//@end
-//@extract fn file="versatiles_core/src/types/tile_bbox.rs" scope="impl TileBBox" name="count_tiles"
-//@ret r
-//@spec
-		requires self.wf()
-		ensures r == self.w() * self.h()
-//@at "(self.width() as u64)"
-		proof { lemma_pow2_bound(self.level as nat);
-			assert(self.w() * self.h() <= 0x8000_0000 * 0x8000_0000) by (nonlinear_arith)
-				requires 0 <= self.w() <= 0x8000_0000, 0 <= self.h() <= 0x8000_0000; }
-//@end
-//@extract fn file="versatiles_core/src/types/tile_bbox.rs" scope="impl TileBBox" name="contains2"
-//@ret r
-//@spec
-		ensures r == self.has(coord.x as int, coord.y as int)
-//@end
-//@extract fn file="versatiles_core/src/types/tile_bbox.rs" scope="impl TileBBox" name="contains3"
-//@ret r
-//@spec
-		ensures r == (coord.z == self.level && self.has(coord.x as int, coord.y as int))
-//@end
-//@extract fn file="versatiles_core/src/types/tile_bbox.rs" scope="impl TileBBox" name="set_empty"
-//@spec
-		ensures final(self).empty(), final(self).same_frame(old(self)),
-			old(self).wf() ==> final(self).wf()
-//@end
-//@extract fn file="versatiles_core/src/types/tile_bbox.rs" scope="impl TileBBox" name="include_coord"
-//@spec
-		requires old(self).wf()
-		ensures final(self).same_frame(old(self)),
-			// for a coordinate of this level: the smallest box containing the old set and (x, y)
-			(x <= old(self).max && y <= old(self).max) ==> (final(self).wf()
-				&& (forall|a: int, b: int| final(self).has(a, b) <==> (
-					if old(self).empty() { a == x && b == y } else {
-						spec_min(old(self).x_min as int, x as int) <= a <= spec_max(old(self).x_max as int, x as int)
-						&& spec_min(old(self).y_min as int, y as int) <= b <= spec_max(old(self).y_max as int, y as int) }))),
-//@at "if self.is_empty()"
-		proof { self.lemma_empty(); }
-//@end
-//@extract fn file="versatiles_core/src/types/tile_bbox.rs" scope="impl TileBBox" name="include_coord3"
-//@ret res
-//@spec
-		requires old(self).wf()
-		ensures final(self).same_frame(old(self)),
-			res is Ok <==> coord.z == old(self).level,
-			res is Err ==> *final(self) == *old(self),
-			(res is Ok && coord.x <= old(self).max && coord.y <= old(self).max) ==> (final(self).wf()
-				&& (forall|a: int, b: int| final(self).has(a, b) <==> (
-					if old(self).empty() { a == coord.x && b == coord.y } else {
-						spec_min(old(self).x_min as int, coord.x as int) <= a <= spec_max(old(self).x_max as int, coord.x as int)
-						&& spec_min(old(self).y_min as int, coord.y as int) <= b <= spec_max(old(self).y_max as int, coord.y as int) }))),
-//@end
-//@extract fn file="versatiles_core/src/types/tile_bbox.rs" scope="impl TileBBox" name="add_border"
-//@spec
-		requires old(self).wf()
-		ensures final(self).wf(), final(self).same_frame(old(self)),
-			forall|a: int, b: int| final(self).has(a, b) <==> (!old(self).empty()
-				&& old(self).x_min - x_min <= a <= old(self).x_max + x_max && 0 <= a <= old(self).max
-				&& old(self).y_min - y_min <= b <= old(self).y_max + y_max && 0 <= b <= old(self).max),
-//@at "if !self.is_empty()"
-		proof { self.lemma_empty(); }
-//@end
-//@extract fn file="versatiles_core/src/types/tile_bbox.rs" scope="impl TileBBox" name="include_bbox"
-//@ret res
-//@spec
-		requires old(self).wf(), bbox.wf()
-		ensures final(self).same_frame(old(self)),
-			res is Ok <==> old(self).level == bbox.level,
-			res is Err ==> *final(self) == *old(self),
-			res is Ok ==> final(self).wf() && (forall|a: int, b: int| final(self).has(a, b) <==> (
-				if bbox.empty() { old(self).has(a, b) } else if old(self).empty() { bbox.has(a, b) } else {
-					spec_min(old(self).x_min as int, bbox.x_min as int) <= a <= spec_max(old(self).x_max as int, bbox.x_max as int)
-					&& spec_min(old(self).y_min as int, bbox.y_min as int) <= b <= spec_max(old(self).y_max as int, bbox.y_max as int) })),
-//@at "if !bbox.is_empty()"
-		proof { self.lemma_empty(); bbox.lemma_empty(); lemma_pow2_bound(self.level as nat); }
-//@end
-//@extract fn file="versatiles_core/src/types/tile_bbox.rs" scope="impl TileBBox" name="intersect_bbox"
-//@ret res
-//@spec
-		ensures
-			res is Ok <==> old(self).level == bbox.level,
-			res is Err ==> *final(self) == *old(self),
-			res is Ok ==> forall|x: int, y: int| final(self).has(x, y) == (old(self).has(x, y) && bbox.has(x, y)),
-			final(self).same_frame(old(self)),
-			res is Ok && old(self).wf() ==> final(self).wf(),
-//@end
-//@extract fn file="versatiles_core/src/types/tile_bbox.rs" scope="impl TileBBox" name="overlaps_bbox"
-//@ret res
-//@spec
-		ensures
-			res is Ok <==> self.level == bbox.level,
-			res is Ok ==> (res.unwrap() <==> exists|x: int, y: int| self.has(x, y) && bbox.has(x, y)),
-//@at "if self.is_empty() || bbox.is_empty()"
-		proof { self.lemma_empty(); bbox.lemma_empty();
-			let wx = spec_max(self.x_min as int, bbox.x_min as int); let wy = spec_max(self.y_min as int, bbox.y_min as int);
-			if !self.empty() && !bbox.empty() && self.x_min <= bbox.x_max && self.x_max >= bbox.x_min && self.y_min <= bbox.y_max && self.y_max >= bbox.y_min {
-				assert(self.has(wx, wy) && bbox.has(wx, wy));
-			} }
-//@end
-//@extract fn file="versatiles_core/src/types/tile_bbox.rs" scope="impl TileBBox" name="shift_by"
-//@spec
-		ensures final(self).same_frame(old(self)),
-			final(self).x_min == spec_min(old(self).x_min + x, u32::MAX as int), final(self).x_max == spec_min(old(self).x_max + x, u32::MAX as int),
-			final(self).y_min == spec_min(old(self).y_min + y, u32::MAX as int), final(self).y_max == spec_min(old(self).y_max + y, u32::MAX as int),
-//@end
-//@extract fn file="versatiles_core/src/types/tile_bbox.rs" scope="impl TileBBox" name="subtract_coord2"
-//@spec
-		ensures final(self).same_frame(old(self)),
-			final(self).x_min == spec_max(old(self).x_min - c.x, 0), final(self).x_max == spec_max(old(self).x_max - c.x, 0),
-			final(self).y_min == spec_max(old(self).y_min - c.y, 0), final(self).y_max == spec_max(old(self).y_max - c.y, 0),
-//@end
-//@extract fn file="versatiles_core/src/types/tile_bbox.rs" scope="impl TileBBox" name="subtract"
-//@spec
-		ensures final(self).same_frame(old(self)),
-			final(self).x_min == spec_max(old(self).x_min - x, 0), final(self).x_max == spec_max(old(self).x_max - x, 0),
-			final(self).y_min == spec_max(old(self).y_min - y, 0), final(self).y_max == spec_max(old(self).y_max - y, 0),
-//@end
-//@extract fn file="versatiles_core/src/types/tile_bbox.rs" scope="impl TileBBox" name="scale_down"
-//@spec
-		requires scale > 0
-		ensures final(self).same_frame(old(self)),
-			final(self).x_min == old(self).x_min / scale, final(self).x_max == old(self).x_max / scale,
-			final(self).y_min == old(self).y_min / scale, final(self).y_max == old(self).y_max / scale,
-			// a non-empty box scales to the image of its set under integer division
-			!old(self).empty() ==> forall|x: int, y: int| #![trigger final(self).has(x / (scale as int), y / (scale as int))]
-				old(self).has(x, y) ==> final(self).has(x / (scale as int), y / (scale as int)),
-//@at "self.x_min /= scale"
-		proof { self.lemma_empty();
-			assert forall|x: int, y: int| old(self).has(x, y) implies
-				(old(self).x_min as int) / (scale as int) <= #[trigger] (x / (scale as int)) <= (old(self).x_max as int) / (scale as int)
-				&& (old(self).y_min as int) / (scale as int) <= #[trigger] (y / (scale as int)) <= (old(self).y_max as int) / (scale as int) by {
-				lemma_div_mono(old(self).x_min as int, x, scale as int); lemma_div_mono(x, old(self).x_max as int, scale as int);
-				lemma_div_mono(old(self).y_min as int, y, scale as int); lemma_div_mono(y, old(self).y_max as int, scale as int);
-			} }
-//@end
-//@extract fn file="versatiles_core/src/types/tile_bbox.rs" scope="impl TileBBox" name="get_tile_index2"
-//@ret r
-//@spec
-		requires self.wf()
-		ensures r is Ok <==> self.has(coord.x as int, coord.y as int),
-			r is Ok ==> r.unwrap() as int == (coord.y - self.y_min) * self.w() + (coord.x - self.x_min),
-//@at "let x ="
-		proof { lemma_pow2_bound(self.level as nat); self.lemma_index_bound(coord.x as int, coord.y as int);
-			assert(self.w() * self.h() <= 0x8000_0000 * 0x8000_0000) by (nonlinear_arith)
-				requires 0 <= self.w() <= 0x8000_0000, 0 <= self.h() <= 0x8000_0000; }
-//@end
-//@extract fn file="versatiles_core/src/types/tile_bbox.rs" scope="impl TileBBox" name="get_tile_index3"
-//@ret r
-//@spec
-		requires self.wf()
-		ensures r is Ok <==> (coord.z == self.level && self.has(coord.x as int, coord.y as int)),
-			r is Ok ==> r.unwrap() as int == (coord.y - self.y_min) * self.w() + (coord.x - self.x_min),
-//@at "let x ="
-		proof { lemma_pow2_bound(self.level as nat); self.lemma_index_bound(coord.x as int, coord.y as int);
-			assert(self.w() * self.h() <= 0x8000_0000 * 0x8000_0000) by (nonlinear_arith)
-				requires 0 <= self.w() <= 0x8000_0000, 0 <= self.h() <= 0x8000_0000; }
-//@end
-//@extract fn file="versatiles_core/src/types/tile_bbox.rs" scope="impl TileBBox" name="get_coord2_by_index"
-//@ret r
-//@spec
-		requires self.wf()
-		ensures r is Ok <==> (index as int) < self.w() * self.h(),
-			r is Ok ==> self.has(r.unwrap().x as int, r.unwrap().y as int)
-				&& (r.unwrap().y - self.y_min) * self.w() + (r.unwrap().x - self.x_min) == index,
-//@at "let width ="
-		proof { lemma_pow2_bound(self.level as nat); self.lemma_coord_of_index(index as int); }
-//@end
-//@extract fn file="versatiles_core/src/types/tile_bbox.rs" scope="impl TileBBox" name="get_coord3_by_index"
-//@ret r
-//@spec
-		requires self.wf()
-		ensures r is Ok <==> (index as int) < self.w() * self.h(),
-			r is Ok ==> self.has(r.unwrap().x as int, r.unwrap().y as int) && r.unwrap().z == self.level
-				&& (r.unwrap().y - self.y_min) * self.w() + (r.unwrap().x - self.x_min) == index,
-//@at "let width ="
-		proof { lemma_pow2_bound(self.level as nat); self.lemma_coord_of_index(index as int); }
-//@end
-
-	pub proof fn lemma_index_bound(&self, x: int, y: int)
-		requires self.has(x, y)
-		ensures 0 <= (y - self.y_min) * self.w() <= (y - self.y_min) * self.w() + (x - self.x_min) < self.w() * self.h()
-	{
-		assert((y - self.y_min) * self.w() + (x - self.x_min) < self.w() * self.h()) by (nonlinear_arith)
-			requires 0 <= y - self.y_min < self.h(), 0 <= x - self.x_min < self.w();
-		assert(0 <= (y - self.y_min) * self.w()) by (nonlinear_arith) requires 0 <= y - self.y_min, 0 <= self.w();
-	}
-	pub proof fn lemma_coord_of_index(&self, i: int)
-		requires 0 <= i < self.w() * self.h()
-		ensures self.w() > 0, self.has(self.x_min + i % self.w(), self.y_min + i / self.w()),
-			(i / self.w()) * self.w() + i % self.w() == i
-	{
-		let w = self.w(); let h = self.h();
-		assert(w > 0) by (nonlinear_arith) requires 0 <= i < w * h, w >= 0, h >= 0;
-		assert(0 <= i % w < w && i == w * (i / w) + i % w) by (nonlinear_arith) requires w > 0;
-		assert(0 <= i / w < h) by (nonlinear_arith) requires 0 <= i < w * h, w > 0, i == w * (i / w) + i % w, 0 <= i % w < w;
-		assert((i / w) * w == w * (i / w)) by (nonlinear_arith);
-	}
-
-	// ---- TransformCoord for TileBBox
-//@extract fn file="versatiles_core/src/utils/transform_coord.rs" scope="impl TransformCoord for TileBBox" name="flip_y"
-//@spec
-		requires old(self).wf()
-		ensures final(self).wf(), final(self).same_frame(old(self)),
-			forall|x: int, y: int| final(self).has(x, y) <==> old(self).has(x, old(self).max - y),
-//@at "if !self.is_empty()"
-		proof { self.lemma_empty(); }
-//@end
-//@extract fn file="versatiles_core/src/utils/transform_coord.rs" scope="impl TransformCoord for TileBBox" name="swap_xy"
-//@spec
-		requires old(self).wf()
-		ensures final(self).wf(), final(self).same_frame(old(self)),
-			forall|x: int, y: int| final(self).has(x, y) <==> old(self).has(y, x),
-//@at "if !self.is_empty()"
-		proof { self.lemma_empty(); }
-//@end
-}
-
-pub proof fn lemma_div_mono(a: int, b: int, d: int)
-	requires a <= b, d > 0
-	ensures a / d <= b / d
-{ vstd::arithmetic::div_mod::lemma_div_is_ordered(a, b, d); }
-
-// ---- property-level lemmas over the contracts above -------------------------------------------
-
-// index <-> coordinate conversion are mutually inverse (C15), row-major
-pub proof fn lemma_index_coord_inverse(b: TileBBox, i: int)
-	requires b.wf(), 0 <= i < b.w() * b.h()
-	ensures ({ let x = b.x_min + i % b.w(); let y = b.y_min + i / b.w();
-		b.has(x, y) && (y - b.y_min) * b.w() + (x - b.x_min) == i })
-{ b.lemma_coord_of_index(i); }
-
-pub proof fn lemma_coord_index_inverse(b: TileBBox, x: int, y: int)
-	requires b.wf(), b.has(x, y)
-	ensures ({ let i = (y - b.y_min) * b.w() + (x - b.x_min);
-		0 <= i < b.w() * b.h() && b.x_min + i % b.w() == x && b.y_min + i / b.w() == y })
-{
-	b.lemma_index_bound(x, y);
-	let w = b.w(); let i = (y - b.y_min) * w + (x - b.x_min);
-	vstd::arithmetic::div_mod::lemma_fundamental_div_mod_converse(i, w, y - b.y_min, x - b.x_min);
-}
-
-// y-flip and x/y swap of a box are involutions on the denoted set and commute with the point maps
-pub proof fn lemma_flip_involution(b: TileBBox, f1: TileBBox, f2: TileBBox)
-	requires b.wf(), f1.same_frame(&b), f2.same_frame(&b),
-		forall|x: int, y: int| f1.has(x, y) <==> b.has(x, b.max - y),
-		forall|x: int, y: int| f2.has(x, y) <==> f1.has(x, f1.max - y),
-	ensures forall|x: int, y: int| f2.has(x, y) <==> b.has(x, y)
-{
-	assert forall|x: int, y: int| f2.has(x, y) <==> b.has(x, y) by { assert(b.max - (b.max - y) == y); }
-}
+//@include common/prelude.vrs
+//@include common/tile_bbox.vrs
 
 // vacuity guards: the preconditions used above are satisfiable
 pub proof fn witness_wf_nonempty() ensures exists|b: TileBBox| b.wf() && !b.empty()
